@@ -838,31 +838,47 @@ func c19RunHistory(rep *verifkit.Report, rng *rand.Rand, pool *c19Pool, sample b
 				}
 				break
 			}
+			// Circumstances that could explain a wrong "blocked"; the kind of
+			// disallowed sub-domain is in the witness, not in the key.
 			detail := ""
 			if want == "clean" {
-				switch {
-				case disIn != "":
-					detail = ":database-lists-disallowed-subdomain:" + disIn
-				case sharing > 0:
-					detail = ":database-lists-other-hash-with-same-prefix"
-				case malformed:
-					detail = ":malformed-txt-served"
+				var circ []string
+				if disIn != "" {
+					circ = append(circ, "disallowed-subdomain-listed")
+				}
+				if sharing > 0 {
+					circ = append(circ, "same-prefix-hash-listed")
+				}
+				if len(circ) == 0 && malformed {
+					circ = append(circ, "malformed-txt-served")
+				}
+				if len(circ) > 0 {
+					detail = ":" + strings.Join(circ, "+")
 				}
 			}
+			explainedByExpired := false
 			if prevDB != nil {
 				if pw, _ := c19Want(d, prevDB); pw == gotS {
-					detail += ":matches-replaced-database(expired-entries)"
+					explainedByExpired = true
 				}
 			}
 			cc := "ample-cache"
 			if small {
 				cc = "small-cache"
 			}
-			rep.Violate(fmt.Sprintf("verdict:want-%s-got-%s:%s:%s%s", want, gotS, source, cc, detail),
+			// "from-cache": at least one allowed prefix was not asked in this
+			// check, i.e. the product relied on what it had stored.
+			how := "after-full-lookup"
+			if source == "no-question" || source == "partial-question" {
+				how = "from-cache"
+			}
+			rep.Violate(fmt.Sprintf("verdict:want-%s-got-%s:%s:%s%s", want, gotS, how, cc, detail),
 				fmt.Sprintf("Check(%q) = %s, but a fresh lookup in the service database gives %s (step %d of the history, %s)",
 					d.Name, gotS, want, len(trace), source),
 				wit(map[string]any{"expected": want, "observed": gotS, "decided_by_subdomain": by,
-					"how_answered": source}))
+					"how_answered": source, "database_lists_disallowed_subdomain_of_kind": disIn,
+					"other_listed_hashes_sharing_a_prefix": sharing,
+					"observed_equals_verdict_under_replaced_database_whose_entries_all_expired": explainedByExpired}))
 		}
 	}
 	rep.EventN("malformed_txt_strings_served", svc.malformedServed)
